@@ -86,7 +86,66 @@ def c_values(ctx: Ctx, code: str, rename: dict, tag: str):
     return ("ok", cm, canon, base, snames, pnames)
 
 
+def missing_template(ident: str):
+    """two components; component A reads `ident`, which component B defines: in `A.to_ode()` it is a missing variable"""
+    return (f'states("A", v=0.7)\nparameters("A", g=0.6)\nexpressions("A")\ni_a = g*v + {ident}\ndv_dt = i_a - v*{ident}\n'
+            f'states("B", w=1.3)\nparameters("B", k=2.5)\nexpressions("B")\n{ident} = k*w\ndw_dt = k*(v - w)\n')
+
+
+def c19_missing_case(ctx: Ctx, case: dict):
+    """the identifier as a *missing variable* of a sub-model (unpacked from the extra `missing_variables` argument)"""
+    ident, backend = case["ident"], case.get("backend", "numpy")
+    neutral = "i_m"
+    ctx.case(f"{ident}/missing/{backend}", True, sample={"ident": ident, "role": "missing", "backend": backend, "text": missing_template(ident)})
+    key = f"C19/{backend}/{ident}/missing"
+    schemes = [Scheme.explicit_euler, Scheme.generalized_rush_larsen]
+    try:
+        ode = common.load(missing_template(ident))
+        sub = ode.get_component("A").to_ode()
+    except Exception as ex:
+        ctx.count(f"rejected_at_load/{type(ex).__name__}")
+        return
+    try:
+        code = common.py_code(sub, backend=backend, scheme=schemes)
+    except Exception as ex:
+        ctx.count(f"rejected_at_codegen/{type(ex).__name__}")
+        return
+    if ident not in (sub.missing_variables or {}):
+        ctx.count("not_a_missing_variable")      # `t` / `time` in the sub-model are the time symbol
+        return
+    ref = common.load(missing_template(neutral)).get_component("A").to_ode()
+    ref_code = common.py_code(ref, backend=backend, scheme=schemes)
+
+    def run(c):
+        mod = common.exec_module(c)
+        out = {}
+        for kpt, (v, g, mv) in enumerate(((0.9, 0.45, 3.25), (1.7, 0.8, -0.5))):
+            s, p, m = np.array([v]), np.array([g]), np.array([mv])
+            with np.errstate(all="ignore"):
+                out[f"rhs@{kpt}"] = float(np.asarray(mod.rhs(0.3, s, p, m))[0])
+                out[f"mon@{kpt}"] = sorted(float(x) for x in np.asarray(mod.monitor_values(0.3, s, p, m)))
+                out[f"euler@{kpt}"] = float(np.asarray(mod.explicit_euler(s, 0.3, 0.25, p, m))[0])
+                out[f"euler0@{kpt}"] = float(np.asarray(mod.explicit_euler(s, 0.3, 0.0, p, m))[0])
+                out[f"grl@{kpt}"] = float(np.asarray(mod.generalized_rush_larsen(s, 0.3, 0.25, p, m))[0])
+        return out
+    try:
+        got = run(code)
+    except Exception as ex:
+        ctx.violate(key + "/crash", f"missing variable named {ident!r}: the generated {backend} code fails at run time with {type(ex).__name__}: {str(ex)[:90]}", case=case)
+        return
+    want = run(ref_code)
+    ctx.count("compared")
+    for fn, v in want.items():
+        g = got.get(fn)
+        same = g == v or (isinstance(v, float) and (abs(g - v) <= 1e-12 * max(abs(g), abs(v)) or (g != g and v != v)))
+        if not same:
+            ctx.violate(key + "/captured", f"missing variable named {ident!r}: {fn} = {g!r} but {v!r} with the identifier renamed to {neutral!r}", case=case)
+            return
+
+
 def c19_case(ctx: Ctx, case: dict):
+    if case.get("role") == "missing":
+        return c19_missing_case(ctx, case)
     ident, role, backend = case["ident"], case["role"], case.get("backend", "numpy")
     neutral = case.get("neutral") or {"state": "v", "parameter": "g", "intermediate": "i_a"}[role]
     usage, ru = case.get("usage", "used"), bool(case.get("remove_unused", False))
@@ -215,6 +274,12 @@ def c19_run(ctx: Ctx):
     for i in range(0, 6):
         for r in (roles if 1 <= i <= 4 else [rng.choice(roles)]):
             cases.append({"ident": f"_values_{i}", "role": r, "backend": "jax"})
+    # the identifier as a missing variable of a sub-model: every name the generated functions use for themselves, and a few others
+    for i in core + ["_values_0", "dv_dt_linearized"] + rng.sample(py, ctx.n(4, 40)):
+        cases.append({"ident": i, "role": "missing", "backend": "numpy"})
+    for i in rng.sample(core, ctx.n(2, 9)) + ["_values_0"]:
+        cases.append({"ident": i, "role": "missing", "backend": "jax"})
+    cases.append({"ident": "i_q", "role": "missing", "backend": "numpy"})
     # random neutral identifiers: must never be flagged
     used = set()
     for _ in range(ctx.n(6, 60)):
